@@ -262,6 +262,7 @@ def main_check(pid, tier, seed, jobs=16, repo="/repo", nseeds=None, wall_cap=Non
     digests = set()
     state_keys = set()
     samples = []
+    backstop_seeds = []
     new_viol = []
     known_hits = {}
     for r in results:
@@ -279,6 +280,8 @@ def main_check(pid, tier, seed, jobs=16, repo="/repo", nseeds=None, wall_cap=Non
             totals[key] += r[key]
         digests.update(r["digests"])
         state_keys.update(r["state_keys"])
+        if r["outcomes"].get("budget", 0) + r["outcomes"].get("wall", 0):
+            backstop_seeds.append(r["seed"])
         for e in r["errors"][:1]:
             harness_problems.append("seed %d: %s" % (r["seed"], e))
         if r["sample"] is not None and len(samples) < 3:
@@ -340,7 +343,7 @@ def main_check(pid, tier, seed, jobs=16, repo="/repo", nseeds=None, wall_cap=Non
             "oracle_max_ratio": {k: float("%.3g" % v) for k, v in sorted(totals["ratios"].items())},
             "components": prop.components, "excluded": prop.excluded,
             "known_findings_reproduced": known_reproduced, "known_finding_hits_in_exploration": known_hits,
-            "exhaustive": False,
+            "exhaustive": False, "backstop_seeds": backstop_seeds[:20],
         },
         "assumptions": prop.assumptions,
         "wall_s": round(wall, 2),
@@ -354,6 +357,8 @@ def main_check(pid, tier, seed, jobs=16, repo="/repo", nseeds=None, wall_cap=Non
     if verbose:
         print("%s %s: %d cases from %d seeds in %.1fs; outcomes %s; faults fired %s; distinct nontrivial %d; states %d"
               % (pid, tier, totals["cases"], len(results), wall, totals["outcomes"], totals["fired"], len(digests), len(state_keys)))
+        if backstop_seeds:
+            print("  seeds that hit the peer-call budget / wall backstop: %s" % backstop_seeds[:20])
     if harness_problems:
         for h in harness_problems[:10]:
             print("HARNESS-PROBLEM: %s" % h[:2000], file=sys.stderr)
